@@ -138,15 +138,8 @@ Proof. intros H. apply (proj1 (proj2 (tie_join_v2_isValid w opts))) in H. lia. Q
    translation, so the two branches are the same list -- as in the model, where the emission of `Sending b ...` carries
    the accumulated elements b whatever `nocopy` is (GenTieMiscBase.model_emits_buffer); the identity of the buffer is the `own`
    flag / the AwaitRel protocol of the model and is not expressible on the generated side. *)
-Theorem tie_join_v2_prepareItem w dsc item : J2.gen_prepareItem w dsc item = (w, dsc, item).
-Proof. unfold J2.gen_prepareItem. cbn. destruct (J2.Opts_NoCopy (J2.Discipline_opts dsc)); reflexivity. Qed.
 
 (* resetJoin: the accumulation becomes empty, nothing else changes (model: buf = [] after resume) *)
-Theorem tie_join_v2_resetJoin w dsc :
-  J2.gen_resetJoin w dsc =
-  (w, J2.mk_Discipline (J2.Discipline_opts dsc) (J2.Discipline_interruptInterval dsc) [] (J2.Discipline_output dsc)
-        (J2.Discipline_passAt dsc) (J2.Discipline_release dsc), tt).
-Proof. reflexivity. Qed.
 
 (* ---------------------------------------------------------------- examples: no theorem is vacuous --------------- *)
 
@@ -185,16 +178,6 @@ Proof.
   - now apply (tie_join_v2_isValid 7 (J2.mk_Opts None 0 false 0 0)).
   - apply (tie_join_v2_isValid 7 (J2.mk_Opts (Some tt) 0 false 0 0)). cbn. split; [discriminate|reflexivity].
 Qed.
-Example ex_join_v2_prepareItem :
-  J2.gen_prepareItem 7 (J2.mk_Discipline (J2.mk_Opts (Some tt) 4 true 0 25) 0 [1;2;3]%N (Some tt) tt (Some tt)) [1;2;3]%N =
-  (7%nat, J2.mk_Discipline (J2.mk_Opts (Some tt) 4 true 0 25) 0 [1;2;3]%N (Some tt) tt (Some tt), [1;2;3]%N) /\
-  J2.gen_prepareItem 7 (J2.mk_Discipline (J2.mk_Opts (Some tt) 4 false 0 25) 0 [1;2;3]%N (Some tt) tt (Some tt)) [1;2;3]%N =
-  (7%nat, J2.mk_Discipline (J2.mk_Opts (Some tt) 4 false 0 25) 0 [1;2;3]%N (Some tt) tt (Some tt), [1;2;3]%N).
-Proof. split; apply tie_join_v2_prepareItem. Qed.
-Example ex_join_v2_resetJoin :
-  J2.gen_resetJoin 7 (J2.mk_Discipline (J2.mk_Opts (Some tt) 4 true 0 25) 0 [1;2;3]%N (Some tt) tt (Some tt)) =
-  (7%nat, J2.mk_Discipline (J2.mk_Opts (Some tt) 4 true 0 25) 0 [] (Some tt) tt (Some tt), tt).
-Proof. now rewrite tie_join_v2_resetJoin. Qed.
 
 (* ---------------------------------------------------------------- assumptions ------------------------------------ *)
 Print Assumptions tie_join_v2_calcInterruptInterval.
@@ -203,5 +186,3 @@ Print Assumptions tie_join_v2_normalize.
 Print Assumptions tie_join_v2_calcInterruptInterval_normalized.
 Print Assumptions tie_join_v2_isValid.
 Print Assumptions tie_join_v2_isValid_jsize.
-Print Assumptions tie_join_v2_prepareItem.
-Print Assumptions tie_join_v2_resetJoin.
